@@ -1,7 +1,8 @@
 """Design-level check and conformance of tactic 1's row selection with spec/Kaykobad.tla: TLC checks SOUNDNESS (whenever rows are
 selected the system is solvable and the multipliers of the certificate of ContextReduction.tla have the sign the direction needs) on
-every state of the universe (136 260 quick; 14.5 M thorough), refutes the wrong variant whose sign test reads one coefficient, and
-two vacuity guards must find a selection for one and for two variables; in generator mode every state is printed with the
+every state of the universe (136 260 quick; 14.5 M and, for three eliminated variables, 2.2 M thorough), refutes two wrong variants (the
+sign test reading one coefficient; the dominance test without the accumulated sums), and three vacuity guards must find a selection for one,
+two and three variables; in generator mode every state is printed with the
 selection, and the real _get_kaykobad_context is called on all of them.  Mismatches are SPEC-DRIFT lines."""
 from __future__ import annotations
 
@@ -11,7 +12,7 @@ import re
 from tlcrun import require_clean, run_tlc, stats_of
 from vcommon import die
 
-NAMES = {"1": "x", "2": "y", "3": "z"}
+NAMES = {"1": "x", "2": "y", "3": "z", "4": "w"}
 
 
 def _fn(j):
@@ -19,9 +20,10 @@ def _fn(j):
 
 
 def conformance(rep, rd, prop, tier="quick"):
-    runs = [("Kaykobad_quick.cfg", None), ("Kaykobad_wrong1.cfg", "Sound"), ("Kaykobad_vacuity1.cfg", "Found"), ("Kaykobad_vacuity2.cfg", "FoundTwo")]
+    runs = [("Kaykobad_quick.cfg", None), ("Kaykobad_wrong1.cfg", "Sound"), ("Kaykobad_wrong2.cfg", "Sound"), ("Kaykobad_vacuity1.cfg", "Found"),
+            ("Kaykobad_vacuity2.cfg", "FoundTwo"), ("Kaykobad_vacuity3.cfg", "FoundThree")]
     if tier != "quick":
-        runs.insert(1, ("Kaykobad.cfg", None))
+        runs[1:1] = [("Kaykobad.cfg", None), ("Kaykobad_three.cfg", None)]
     for cfg, must in runs:
         res = run_tlc("Kaykobad", cfg, rd, timeout=3000, gc="parallel", heap="12g")
         st = stats_of(res)
@@ -46,6 +48,18 @@ def conformance(rep, rd, prop, tier="quick"):
             cases.append(json.loads(m.group(1).encode().decode("unicode_escape")))
     if len(cases) < 30000:
         die("Kaykobad.tla emitted only %d states" % len(cases))
+    if tier != "quick":
+        # three eliminated variables (2.2 M states): every successful selection and one in sixteen of the others
+        res = run_tlc("Kaykobad", "Kaykobad_gen3.cfg", rd, workers=1, timeout=3000)
+        require_clean(res, "Kaykobad_gen3")
+        rep.add_tlc(stats_of(res))
+        n0 = len(cases)
+        for m in re.finditer(r'<<"CASE", "(.*?)">>\s*$', res["out"], re.M):
+            if m.group(1) not in seen:
+                seen.add(m.group(1))
+                cases.append(json.loads(m.group(1).encode().decode("unicode_escape")))
+        if len(cases) - n0 < 100000:
+            die("Kaykobad.tla (three variables) emitted only %d states" % (len(cases) - n0))
 
     from pacti.iocontract import Var
     from pacti.terms.polyhedra import PolyhedralTerm, PolyhedralTermList
